@@ -2,6 +2,7 @@ package rules
 
 import (
 	"go/ast"
+	"go/token"
 	"go/constant"
 	"strings"
 
@@ -23,6 +24,12 @@ func runC08(p *eng.Prog, r *eng.Report, tier string) {
 	c := &cx{p, r, tier}
 	c08Handle(c)
 	c08Reader(c)
+	// the serve loop goes on delivering elements (and ends without an error at
+	// the closing tag) after the documented shutdown sequence replaced the
+	// input context
+	if sv := c.fn("C08.8", "", "(*Session).Serve"); sv != nil {
+		serveCtxReread(c, "C08.8", sv)
+	}
 	closerTypestate(c, "C08.5")
 	c05DeferWriterID(c, "C08.5")
 	// C08.7 stream-level constructs END the session: the filter's errors are
@@ -221,6 +228,58 @@ func c08Handle(c *cx) {
 		}
 	}
 	c.r.Floor("C08.4", "from normalisation stores", n, 1)
+	// the search for the from attribute looks at every attribute until it has
+	// found the stanza's own from: the loop is left early only on that match
+	// (attributes come in any order: an exit on some other condition lets a
+	// from that follows reach the handler un-normalised)
+	nb := 0
+	for _, w := range f.Writes() {
+		sel, ok := ast.Unparen(w.LHS).(*ast.SelectorExpr)
+		if !ok || sel.Sel.Name != "Value" {
+			continue
+		}
+		if v := rootLocal(f, w.LHS); v == nil || eng.TypeStr(v.Type()) != "encoding/xml.StartElement" {
+			continue
+		}
+		var loop *ast.RangeStmt
+		for p := g.Parent(w.Stmt); p != nil && loop == nil; p = g.Parent(p) {
+			if rs, ok := p.(*ast.RangeStmt); ok {
+				loop = rs
+			}
+		}
+		if loop == nil {
+			continue
+		}
+		ast.Inspect(loop.Body, func(x ast.Node) bool {
+			if _, isLit := x.(*ast.FuncLit); isLit {
+				return false
+			}
+			br, ok := x.(*ast.BranchStmt)
+			if !ok || br.Tok != token.BREAK {
+				return true
+			}
+			// the statement this break leaves
+			var target ast.Node
+			for p := g.Parent(br); p != nil && target == nil; p = g.Parent(p) {
+				switch p.(type) {
+				case *ast.ForStmt, *ast.RangeStmt, *ast.SwitchStmt, *ast.TypeSwitchStmt, *ast.SelectStmt:
+					target = p
+				}
+			}
+			if br.Label == nil && target != ast.Node(loop) {
+				return true
+			}
+			nb++
+			bpt, okb := g.WhereBranch(br)
+			if !okb {
+				c.r.Check("C08.4", f, "attribute search left early", "break statement placed in the graph", br.Pos(), false, "cannot place the break statement in the control-flow graph")
+				return true
+			}
+			c.domPt("C08.4", f, bpt, br.Pos(), "attribute search left early", []string{"eq(rangeval(*.Attr).Name.Local,\"from\")", "eq(rangeval(*.Attr).Name.Space,\"\")"})
+			return true
+		})
+	}
+	c.r.Note("C08.4: %d early exits of the from search examined", nb)
 }
 
 func c08Reader(c *cx) {
